@@ -6,9 +6,19 @@
 (*                                                                         *)
 (* Events (one ndjson line each; many traces are concatenated):            *)
 (*   new   tr, nres, rules : [ [res, N] ]        N = [h, l] 16-bit limbs   *)
-(*   req   res, b = [h, l], id, ok, [bt, rule, val = [h, l]], conc         *)
+(*   req   res, b = [h, l], id, ok, [bt, rule, rN, val = [h, l]], conc     *)
 (*           one api.Entry(WithBatchCount(b)); conc = CurrentConcurrency   *)
-(*           of the resource right after the call                         *)
+(*           of the resource right after the call; rule = position of the  *)
+(*           triggered rule in the list of `new`, rN = its threshold       *)
+(*   reload via, r, rules : [ [res, N, mt] ] (RAW, as pushed), err,        *)
+(*           got : per resource the thresholds GetRulesOfResource reports, *)
+(*           conc : per resource the gauge right after the push            *)
+(*           via = all (isolation.LoadRules) | res (LoadRulesOfResource) | *)
+(*           clear (ClearRulesOfResource) | clearall (ClearRules).  The    *)
+(*           rules in force are COMPUTED here from the raw list with the   *)
+(*           transcribed validity predicate; after a reload the triggered  *)
+(*           rule is identified by its threshold (positions are those of   *)
+(*           the first list only)                                          *)
 (*   exit  res, id, conc                         Exit of admitted entry id *)
 (*   conc  res, bs, sched, oks, conc             k gated goroutines ran    *)
 (*           api.Entry in the interleaving sched (small batches)           *)
@@ -30,7 +40,7 @@ VARIABLES
     l,        \* next line
     rs,       \* rules of the running trace
     infl,     \* [1..nres -> set of ids in flight]
-    g,        \* [tr]
+    g,        \* [tr, nres, rel]: rel = a reload happened in this trace
     failed
 
 tvars == <<l, rs, infl, g, failed>>
@@ -46,6 +56,21 @@ Decision(rules, cnt, res, b) ==
 
 Limbs(x) == <<x[1], x[2]>>
 
+\* --- rules in force after a push: operators of Isolation (validity predicate of the module, transcribed) ---
+Valid(x) == x.res # 0 /\ x.mt = 0 /\ ~UIsZero(x.N)
+Strip(s) == [i \in 1..Len(s) |-> [res |-> s[i].res, N |-> s[i].N]]
+OfRes(s, r)  == SelectSeq(s, LAMBDA x : x.res = r)
+NotRes(s, r) == SelectSeq(s, LAMBDA x : x.res # r)
+RECURSIVE ByRes(_, _)
+ByRes(s, n) == IF n = 0 THEN << >> ELSE ByRes(s, n - 1) \o OfRes(s, n)
+InForceAfter(rules, via, r, raw, n) ==
+    LET v == Strip(SelectSeq(raw, Valid)) IN
+    CASE via = "all"      -> ByRes(v, n)
+      [] via = "res"      -> ByRes(NotRes(rules, r) \o OfRes(v, r), n)
+      [] via = "clear"    -> ByRes(NotRes(rules, r), n)
+      [] via = "clearall" -> << >>
+ThresholdsOf(rules, r) == LET m == OfRes(rules, r) IN [i \in 1..Len(m) |-> m[i].N]
+
 Judge(ok, expected) ==
     IF failed \/ ok THEN failed' = failed
     ELSE /\ failed' = TRUE
@@ -57,7 +82,7 @@ TNew ==
     /\ IsEvent("new")
     /\ rs' = [i \in 1..Len(Ev.rules) |-> [res |-> Ev.rules[i].res, N |-> Limbs(Ev.rules[i].N)]]
     /\ infl' = [r \in 1..Ev.nres |-> {}]
-    /\ g' = [tr |-> Ev.tr]
+    /\ g' = [tr |-> Ev.tr, nres |-> Ev.nres, rel |-> FALSE]
     /\ failed' = FALSE
 
 TReq ==
@@ -66,11 +91,15 @@ TReq ==
            cnt == Cardinality(infl[res])
            d   == Decision(rs, cnt, res, Limbs(Ev.b))
            exp == IF d.ok THEN [ok |-> TRUE, conc |-> cnt + 1]
-                  ELSE [ok |-> FALSE, bt |-> "isolation", rule |-> d.rule, val |-> USmall(cnt), conc |-> cnt]
+                  ELSE [ok |-> FALSE, bt |-> "isolation", rule |-> IF g.rel THEN -1 ELSE d.rule, rN |-> rs[d.rule].N,
+                        val |-> USmall(cnt), conc |-> cnt]
        IN
        /\ Judge(/\ Ev.ok = d.ok
                 /\ Ev.conc = exp.conc
-                /\ ~d.ok => (Ev.bt = "isolation" /\ Ev.rule = d.rule /\ Limbs(Ev.val) = USmall(cnt)),
+                /\ ~d.ok => (/\ Ev.bt = "isolation"
+                             /\ (g.rel \/ Ev.rule = d.rule)
+                             /\ Limbs(Ev.rN) = rs[d.rule].N
+                             /\ Limbs(Ev.val) = USmall(cnt)),
                 exp)
        /\ infl' = IF Ev.ok THEN [infl EXCEPT ![res] = @ \cup {Ev.id}] ELSE infl
     /\ UNCHANGED <<rs, g>>
@@ -81,6 +110,26 @@ TExit ==
     /\ infl' = [infl EXCEPT ![Ev.res] = @ \ {Ev.id}]
     /\ Judge(Ev.conc = Cardinality(infl[Ev.res]) - 1, [conc |-> Cardinality(infl[Ev.res]) - 1])
     /\ UNCHANGED <<rs, g>>
+
+\* a rule list pushed in the middle of the trace: from here on the decision of every request follows the valid rules of
+\* the latest push of its resource; entries in flight survive (they keep occupying capacity)
+TReload ==
+    /\ IsEvent("reload")
+    /\ LET raw == [i \in 1..Len(Ev.rules) |-> [res |-> Ev.rules[i].res, N |-> Limbs(Ev.rules[i].N), mt |-> Ev.rules[i].mt]]
+           nrs == InForceAfter(rs, Ev.via, Ev.r, raw, g.nres)
+           exp == [err |-> FALSE,
+                   got  |-> [r \in 1..g.nres |-> ThresholdsOf(nrs, r)],
+                   conc |-> [r \in 1..g.nres |-> Cardinality(infl[r])]]
+       IN
+       /\ rs' = nrs
+       /\ Judge(/\ Ev.err = FALSE
+                /\ \A r \in 1..g.nres :
+                      /\ Len(Ev.got[r]) = Len(exp.got[r])
+                      /\ \A i \in 1..Len(Ev.got[r]) : Limbs(Ev.got[r][i]) = exp.got[r][i]
+                      /\ Ev.conc[r] = exp.conc[r],
+                exp)
+    /\ g' = [g EXCEPT !.rel = TRUE]
+    /\ UNCHANGED infl
 
 ---------------------------------------------------------------------------
 (* k callers inside the admission path at the same time.  Property level:  *)
@@ -143,7 +192,7 @@ TStorm ==
               bound |-> "gauge back to the entries in flight before; in-flight <= N + W-1; no rejection when N >= in-flight + W"])
     /\ UNCHANGED <<rs, infl, g>>
 
-TInit == l = 1 /\ rs = << >> /\ infl = << >> /\ g = [tr |-> 0] /\ failed = FALSE
-TNext == TNew \/ TReq \/ TExit \/ TConc \/ TStorm
+TInit == l = 1 /\ rs = << >> /\ infl = << >> /\ g = [tr |-> 0, nres |-> 0, rel |-> FALSE] /\ failed = FALSE
+TNext == TNew \/ TReq \/ TExit \/ TReload \/ TConc \/ TStorm
 TSpec == TInit /\ [][TNext]_tvars
 =============================================================================
